@@ -41,7 +41,9 @@ pub fn msg_text(i: usize, w: usize) -> String {
         2 => (0..2 * w + 1).map(|k| (b'a' + (k % 26) as u8) as char).collect(),
         3 => "x\ny".into(),
         4 => "\nz".into(),
-        _ => "\x1b[1m\x1b[0m".into(),
+        5 => "\x1b[1m\x1b[0m".into(),
+        // double-width text, wider than the terminal (truncated by {wide_msg}, wrapped otherwise)
+        _ => "日本語".repeat(w / 3 + 1),
     }
 }
 
@@ -81,8 +83,9 @@ impl RefBar {
     }
 }
 
+/// text the reference renderer can lay out itself: no control characters or escape sequences
 fn plain_ascii(s: &str) -> bool {
-    s.bytes().all(|b| (0x20..0x7f).contains(&b))
+    s.chars().all(|c| !c.is_control())
 }
 
 /// Independent reference renderer for the four C01 templates: unwrapped frame lines, or `None`
@@ -115,7 +118,17 @@ pub fn render_ref(b: &RefBar, w: usize) -> Option<Vec<String>> {
                 TICKS.chars().last().unwrap()
             };
             let left = w.saturating_sub(2);
-            let shown: String = b.msg.chars().take(left).collect();
+            // a truncating field: whole characters from the start that fit into `left` columns
+            let mut shown = String::new();
+            let mut cols = 0;
+            for c in b.msg.chars() {
+                let cw = crate::term::char_width(c);
+                if cols + cw > left {
+                    break;
+                }
+                cols += cw;
+                shown.push(c);
+            }
             lines.push(format!("{} {}", sp, shown.trim_end()));
         }
         _ => {
@@ -211,7 +224,7 @@ impl Hist for C01 {
 
     fn alphabet(&self, _prefix: &[Op]) -> Vec<Op> {
         let mut v = vec![Op::Tick, Op::Inc, Op::SetPosToLen, Op::SetLength7];
-        v.extend((0..6).map(Op::Msg));
+        v.extend((0..7).filter(|&i| i < 6 || self.w >= 2).map(Op::Msg));
         v.push(Op::Prefix);
         v.extend((0..4).filter(|&i| !self.reduced || i < 2).map(Op::Style));
         v.extend((0..4).map(Op::Println));
